@@ -15,7 +15,7 @@ CONTROL = ["allow_write", "enter", "exit", "exit_exn", "copy_switch", "clobber",
 MUTATORS = ["add_block", "add_block_dup", "remove_block", "remove_absent", "replace_block", "replace_equal", "set_equal",
             "set_data3D", "set_force_and_torque", "set_force_platforms_data", "set_events", "set_emg"]
 READERS = ["blocks", "get_block_index", "get_block_type", "getitem", "data3D", "events", "emg", "has_data3D",
-           "has_events", "len", "nBytes", "eq", "eq_unreadable", "repr", "copy"]
+           "has_events", "len", "nBytes", "eq", "eq_unreadable", "iter_next", "repr", "copy"]
 PLAIN = {"len", "nBytes", "copy"}
 ALPHABET = CONTROL + MUTATORS + READERS
 
@@ -41,6 +41,7 @@ class Session:
         else:
             os.unlink(self.unreadable)
         self.rng = rng
+        self.iters = []              # half-consumed iterators over the object, kept alive
         self.saved = None            # the TDF bytes while the file is clobbered
 
     def sha(self):
@@ -166,6 +167,12 @@ def perform(sess, name):
             thunk = lambda: t == sess.t2
         elif name == "eq_unreadable":
             thunk = lambda: t == sess.t3
+        elif name == "iter_next":
+            # a loop over the object that is left half-way, the iterator kept alive:  it = iter(t); next(it)
+            def thunk():
+                it = iter(t)
+                sess.iters.append(it)
+                next(it)
         elif name == "repr":
             thunk = lambda: repr(t)
         elif name == "copy":
@@ -360,8 +367,8 @@ def run(chk):
     chk.extra["exhaustive_tail_length"] = L
     chk.extra["prefix_modes"] = len(prefixes)
     chk.rule = ("call sequences on a Tdf object over a file holding one block: every tail of length <= L (stated in "
-                "exhaustive_tail_length) over the 34-call alphabet {allow_write, enter, exit, exit-by-exception, continue with the object copy() returns, somebody replaces the file by non-TDF bytes / puts it back (only while no context is open)} + 12 mutator "
-                "requests (add valid/duplicate, remove present/absent, replace with another / with equal content, the five setters, a setter with equal content) + 15 readers (incl. == with an operand whose file cannot be opened), after each of 21 "
+                "exhaustive_tail_length) over the 35-call alphabet {allow_write, enter, exit, exit-by-exception, continue with the object copy() returns, somebody replaces the file by non-TDF bytes / puts it back (only while no context is open)} + 12 mutator "
+                "requests (add valid/duplicate, remove present/absent, replace with another / with equal content, the five setters, a setter with equal content) + 16 readers (incl. == with an operand whose file cannot be opened, and a loop over the object left half-way with its iterator kept alive), after each of 21 "
                 "prefix modes (no context; allow_write only; read-only context; write context; re-entered after a write context; "
                 "after exit by exception; re-entered after that; allow_write inside a read-only context; allow_write consumed by "
                 "a reader; after a successful write session; on a copy taken with the permission pending, taken inside a write context, and entered after that; with-blocks nested on the one object (a write block inside a read block and left again; a read block inside a write block; a third block opened after that); with the file clobbered — before any context, after one, with the permission pending, after a refused reader and restored, after a refused reader, restored and entered), plus random sequences of 3-12 calls; observed after each call: "
